@@ -223,6 +223,15 @@ def gen(rng, tier):
                 btext, bkind = "harmonic {\n name b\n colvars q\n centers %s\n forceConstant %s\n}\n" % (num(rng.uniform(-1, 1)), num(rng.uniform(0.5, 3.0))), "harmonic"
         else:
             text, gopt, fit = add_group_options(rng, text, P)
+            if vtype == "scalar" and len(klist) == 1 and klist[0] in ("distance", "distanceZ", "distanceXY", "gyration", "distanceInv") and len(cases) % 2 == 1:
+                # an analytic-kernel bias on two variables: histogramRestraint on q and on a distance between two other atoms
+                a1, a2 = 1, NAT
+                ref = [rng.uniform(0.05, 0.5) for _ in range(12)]
+                btext = ("colvar {\n name q2\n distance {\n  group1 { atomNumbers %d }\n  group2 { atomNumbers %d }\n }\n}\n" % (a1, a2) +
+                         "histogramRestraint {\n name b\n colvars q q2\n lowerBoundary 0.0\n upperBoundary 12.0\n width 1.0\n gaussianSigma 1.5\n refHistogram %s\n forceConstant %s\n}\n"
+                         % (" ".join(num(r) for r in ref), num(rng.uniform(0.5, 3.0))))
+                bkind = "histogramRestraint(2)"
+                groups = list(groups) + [[a1 - 1], [a2 - 1]]
         cell = rng.rand() < 0.3
         L = ["m.new %d" % NAT, "M.noclock"]
         if cell:
